@@ -7,8 +7,9 @@ Tie to /repo, B1 (translator): rotmatx/y/z, rotate_point, rotate_points, get_rot
 APIs) and bring_plane_to_origin are cut from the current sources, executed symbolically (tracer/) and emitted as
 Coq definitions; Coq proves them equal to the model for all reals and restates the property on the traced
 definitions (C13_TieProps.v).  The translator is validated each run against the real functions (self-check).
-Tie, B2 (correspondence): the Q mirror of the model is executed inside Coq on the generated cases (cos/sin table
-from mpmath, checked to lie on the unit circle inside Coq) and compared with what the implementation returned.
+Tie, B2 (correspondence): the Q mirror of the model is executed inside Coq on the generated cases and compared with
+what the implementation returned; its cos/sin table is produced by mpmath and every entry is proved by Coq Interval
+(on the same run) to be within 1e-20 of the true value.
 Direct oracles state every clause on the real implementation and give replayable failing inputs.
 """
 import json, math
@@ -368,7 +369,7 @@ def fn_of(name, inp):
     if name == 'matrix': return FN[(inp['api'], inp['fn'])]
     if name == 'rotate': return FN[(inp['api'], inp['fn'])]
     if name == 'inverse': return FN[('numpy', 'bring_plane_to_origin')] if inp['api'] == 'numpy' else FN[('torch', 'rotate_points')]
-    if name == 'same': return FN[('torch', 'rotate_points')]
+    if name == 'same': return 'odak.tools.rotate_points|odak.learn.tools.rotate_points'
     return FN[(inp['api'], 'tilt_towards')]
 
 
@@ -424,6 +425,14 @@ def gen_cloud(rng, i):
 def gen_rotate_cases(ctx, n):
     rng = ctx.rng
     out = []
+    # every API, every single axis alone (the other two angles exactly zero), every pair
+    for which, fn, dtype in (('numpy', 'rotate_points', 'float64'), ('numpy', 'rotate_point', 'float64'), ('torch', 'rotate_points', 'float64')):
+        for pat in ((1, 0, 0), (0, 1, 0), (0, 0, 1), (1, 1, 0), (0, 1, 1), (1, 0, 1)):
+            pts, origin, offset = gen_cloud(rng, len(out))
+            inp = {'api': which, 'fn': fn, 'mode': MODES[len(out) % 5], 'angles': [rng.uniform(-180, 180) * k for k in pat], 'points': pts,
+                   'origin': origin, 'offset': offset, 'dtype': dtype}
+            if fn == 'rotate_point': inp['single'] = True
+            out.append(inp)
     for i in range(n):
         pts, origin, offset = gen_cloud(rng, i)
         angles = gen_angles(rng, i)
